@@ -14,6 +14,7 @@ pub mod pw;
 pub mod c08;
 pub mod c09;
 pub mod c11;
+pub mod c12;
 pub mod c14;
 pub mod c15;
 pub mod c16;
